@@ -477,6 +477,9 @@ inline LatLonResult latlon_ref(const std::string& a, const std::string& b, bool 
       if (cmp(al - ninety, Q::from_double(r.lat.tol)) <= 0 || r.lat.huge) { r.st = GREY; r.why = "latitude within round-off of 90"; }
       else { r.st = REJECT; r.why = "latitude out of range"; }
     }
+    // ... and the other way round: a latitude that is in range in exact arithmetic but is the sum of pieces so large that the double
+    // evaluation cannot resolve it ("4...800-4...400-400": exactly 0, -400 in doubles) may legitimately be seen out of range
+    else if (r.lat.tol > 1e-9 && cmp(al + Q::from_double(r.lat.tol), ninety) > 0) { r.st = GREY; r.why = "latitude within the round-off of its pieces of 90"; }
   }
   return r;
 }
